@@ -240,6 +240,36 @@ def foreign(ctx, cname):
     ctx.ob("FOREIGN", cname, "members are touched only through update / reset / set_reference / drift_state / retraining_recs", True, "", nontrivial=False)
 
 
+def _probe_default(ctx, cname, fa):
+    """value of factory()(probe) for the default-selector factory (a nested function of Ensemble.__init__ or a module function)"""
+    import ast as _ast
+    probe = atom(("sym", "probe data"))
+    if fa[0] == "closure":
+        fi = ctx.prog.method("Ensemble", "__init__").nested.get(fa[1].rsplit(".", 1)[-1])
+    else:
+        mod, _, name = fa[1].rpartition(".")
+        mi = ctx.prog.modules.get(mod)
+        fi = mi.functions.get(name) if mi is not None else None
+    if fi is None:
+        return None
+    body = [s for s in fi.node.body if not (isinstance(s, _ast.Expr) and isinstance(s.value, _ast.Constant))]
+    if len(body) != 1 or not isinstance(body[0], _ast.Return):
+        return None
+    v = body[0].value
+    if isinstance(v, _ast.Lambda):
+        if len(v.args.args) == 1 and isinstance(v.body, _ast.Name) and v.body.id == v.args.args[0].arg:
+            return probe
+        return None
+    if isinstance(v, _ast.Name):
+        # a module-level function returned by name: it must return its only argument
+        g = fi.module.functions.get(v.id) if hasattr(fi, "module") else None
+        if g is not None:
+            gb = [s for s in g.node.body if not (isinstance(s, _ast.Expr) and isinstance(s.value, _ast.Constant))]
+            if len(gb) == 1 and isinstance(gb[0], _ast.Return) and isinstance(gb[0].value, _ast.Name) and len(g.node.args.args) == 1 and gb[0].value.id == g.node.args.args[0].arg:
+                return probe
+    return None
+
+
 def construction(ctx, cname):
     """Selectors: the caller's selectors on top of an identity default; base state of the ensemble's own counters."""
     from . import common
@@ -248,22 +278,20 @@ def construction(ctx, cname):
     at = ti.final.attrs if ti.final is not None else {}
     cs = at.get("column_selectors")
     a = cs.single_atom() if cs is not None else None
-    ok = a is not None and a[0] == "mutated" and a[3] == "method:update" and a[4] == atom(("tuple", (P("column_selectors"),)))
-    dflt = None
-    if ok:
+    # defaultdict(factory) updated with the caller's selectors, or defaultdict(factory, caller's selectors)
+    fac = None
+    if a is not None and a[0] == "mutated" and a[3] == "method:update" and a[4] == atom(("tuple", (P("column_selectors"),))):
         b = a[1].single_atom()
-        ok = b is not None and b[0] == "call" and b[1] == "collections.defaultdict" and len(b[2]) == 1 and (b[2][0].single_atom() or ("",))[0] == "closure"
-        dflt = b[2][0].single_atom()[1] if ok else None
+        if b is not None and b[0] == "call" and b[1] == "collections.defaultdict" and len(b[2]) == 1:
+            fac = b[2][0]
+    elif a is not None and a[0] == "call" and a[1] == "collections.defaultdict" and len(a[2]) == 2 and a[2][1] == P("column_selectors"):
+        fac = a[2][0]
+    fa = fac.single_atom() if fac is not None else None
+    ok = fa is not None and fa[0] in ("closure", "global")
     ctx.ob("FRM", site, "selectors = the given ones on top of a default for every other member", ok, q.short(cs, 120) if cs is not None else "unset")
-    if dflt:
-        fi = ctx.prog.method("Ensemble", "__init__").nested.get(dflt.rsplit(".", 1)[-1])
-        okd = False
-        if fi is not None:
-            import ast as _ast
-            body = [s for s in fi.node.body if not (isinstance(s, _ast.Expr) and isinstance(s.value, _ast.Constant))]
-            if len(body) == 1 and isinstance(body[0], _ast.Return) and isinstance(body[0].value, _ast.Lambda):
-                lam = body[0].value
-                okd = len(lam.args.args) == 1 and isinstance(lam.body, _ast.Name) and lam.body.id == lam.args.args[0].arg
+    if ok:
+        # what the factory returns must hand the data through: evaluate factory()(data)
+        okd = _probe_default(ctx, cname, fa) == atom(("sym", "probe data"))
         ctx.ob("FRM", site, "the default selector passes the data through unchanged", okd, "")
     common.init_base(ctx, cname)
     # views start from an empty result
